@@ -227,6 +227,25 @@ def rule_ser_agree(ctx):
                     inc_ok = len(incs) == 1 and w.n(incs[0]).get('op') == '++'
                     okk = bool(inloop and init_ok and cond_ok and inc_ok and k == 'member')
                     why = f"for (it = first; it != last; ++it) write_member(*it): loop={bool(inloop)} init={bool(init_ok)} cond={cond_ok} step={inc_ok}"
+                # KEY-WIDTH: the loader maps the key area as an array of K (file_bytes = header_bytes + n * sizeof(K)), so every key must
+                # be written as a K: write_member<T> writes sizeof(T) bytes, T deduced from its argument.  The range constructor
+                # accepts any iterator; a driver instantiates it with a value type different from K to expose the deduced T.
+                if keyw:
+                    def wtype(c):
+                        cal = w.unit.functions.get(w.n(c).get('cd'))
+                        if cal is None or not cal.params:
+                            return None
+                        ty = w.unit.tstr(cal.params[0]['t'])
+                        return ty.replace('const ', '').replace('&', '').strip()
+                    fk = [c for (k_, t_, c) in wr if t_ == ('field', 'first_key', THIS)]
+                    kt = wtype(fk[0]) if fk else None
+                    et = wtype(keyw[0][2])
+                    if kt is None or et is None:
+                        obs.append(Ob('SER-AGREE', w, keyw[0][2], 'each key is written with the width of K', 'callee of write_member not resolved', UNDECIDED, arm='key-width'))
+                    else:
+                        obs.append(Ob('SER-AGREE', w, keyw[0][2], 'each key is written with the width of K (the loader maps the key area as K[n]), whatever the value type of the range',
+                                      f"keys are written as `{et}`, K is `{kt}`" + ('' if et == kt else f": sizeof differs from what the loader and file_bytes assume (range value type `{et}`)"),
+                                      OK if et == kt else VIOLATED, arm='key-width'))
                 # any raw stream write inside serialize_and_map bypasses the per-element protocol
                 raw = [c for c in w.calls(pred=lambda nd: nd.get('cn') == 'write' and 'ostream' in nd.get('ct', '')) if reachable(w, c)]
                 if raw:
